@@ -94,7 +94,7 @@ M = {
  'm27': (S + 'solver.py', """        time_after_solve = datetime.datetime.now()
         self.model.time_after_solve = time_after_solve""", """        time_after_solve = datetime.datetime.now()
         if not hasattr(self.model, 'time_after_solve'):
-            self.model.time_after_solve = time_after_solve""", [], 'OUT OF SCOPE (kept as a control): end time only recorded by the first solve; needs a re-solve under a time limit, which neither C14 (single run) nor C18 (no limit) quantifies over'),
+            self.model.time_after_solve = time_after_solve""", ['C14'], 'end time only recorded by the first solve: a re-solve that is stopped by the time limit presents its incumbent (was a control until C14 got the policy "after a healthy solve")'),
  'm28': (S + 'model.py', "            matching[pair.student_index] = str(pair.projectID)\n        return ' '.join(matching)",
          "            matching[pair.student_index] = str(pair.projectID if pair.projectID < 3 else pair.project_index + 1 - (pair.projectID == 3 and self.num_projects > 3))\n        return ' '.join(matching)",
          ['C11', 'C01'], 'matching line prints 2 instead of 3 when there are more than three projects'),
